@@ -161,6 +161,15 @@ _add("C16", "One-shot iterables, repeated keys, the item protocol (incl. falsy s
 _add("C18", "Hits whose value is falsy but not None are a third cache state (3^n assignments).")
 _add("C19", "Which node fails before a reconfiguration varies, a reconfiguration refused by the endpoint (ERROR) may precede the successful one, and the ERROR reply is also delivered split.")
 _add("C20", "Further entry points: Client(ignore_exc=True).get, Client(encoding='utf8').check_key and a HashClient with no server left in rotation; keys that begin with the prefix; the repository's own unit suite is run once with the C14/C15/C20 contracts switched on (a contract firing there is reported).")
+_add("C03", "After every delivery schedule a follow-up get is issued on the same object and must give the same result as after the single-piece delivery (a reader that stops early or late leaves the stream at a different position); several EINTRs in a row are injected in one gap; the fake kernel returns b'' for recv(0).")
+_add("C07", "Servers given as UNIX socket paths, outages that outlast retry_timeout and dead_timeout (the same read repeated after each wait), and the read-through pattern (the caller fills the dict a failed multi-key read returned, then reads fail again) are part of the grid.")
+_add("C11", "64-bit and high-bits-only hash functions, IPv6 literals as HashClient servers (node name '<host>:<port>'), and every add/remove history a second time with look-ups only after some of the steps (several membership changes between two look-ups).")
+_add("C13", "Server 0 is a UNIX socket in a third of the targeted and a quarter of the random sequences. Whether a contact was a memcached-error exchange is decided from the server's own reply, because ignore_exc swallows the exception.")
+_add("C14", "Strings outside Latin-1 include lone surrogates and 100-400 character strings.")
+_add("C15", "One serde object per configuration serves the whole run, and a second serialize is forced while one is in progress on the same object (re-entrantly through __reduce__, and from a second thread released from inside the first dump).")
+_add("C17", "Sessions of 2-4 calls through ONE RetryingClient (every call has the full budget); outcomes that are not Exceptions (KeyboardInterrupt, SystemExit, a BaseException subclass) are never retried and reach the caller.")
+_add("C18", "The order is also (re)configured after construction through the public caches attribute, and 12-call sessions run on one FallbackClient while the caches' contents change.")
+_add("C20", "Clients whose server refuses connections are a further entry point (17 operations in rotation): an illegal key is still MemcacheIllegalInputError, not the connection error.")
 
 NOT_YET = "check not built yet in this round (runtime-monitoring design in DESIGN.md §2); will be claimed once its monitor exists"
 
